@@ -9,6 +9,15 @@
 //! roles) right after a successful createPair, as the repo's tests do instead of the async
 //! issue flow.
 //!
+//! Administration endpoints (session 4): `setTmpPeriod c n` = setTemporaryOwnerPeriod, `clearTmp c` =
+//! clearPairTemporaryOwnerStorage (out v1 = returned size), `issueLp c a` = issueLpToken (0 EGLD),
+//! `setLocalRoles c a`, `upgradePair c t1 t2`: the REAL endpoints; their asynchronous tail runs against
+//! the VM's system-SC / upgradeContract mocks and leaves no observable trace (the issue callback fails
+//! in the mock: no initial supply is sent back), so a pair without LP token stays without.
+//! `advanceBlock n` sets the block nonce; `bareNext 0|1` is an environment flag: while 1, the LP token of
+//! a newly created pair is NOT installed.  State line: blk, tper (getTemporaryOwnerPeriod), tmp
+//! (pair_temporary_owner, iteration order, pair:creator:block), nolp (pairs whose own LP token id is invalid).
+//!
 //! The `EnableSwapByUserModule` of the router is driven too: two real `simple-lock` contracts
 //! (LOCKED collections 501 = "LKA-abcdef", 502 = "LKB-abcdef") mint the locked LP tokens a user
 //! pays to `setSwapEnabledByUser`.  A locked-token class is `coll orig unlock` in op text
@@ -152,6 +161,7 @@ struct PSnap {
     rep1: u64, // token ids the pair itself reports
     rep2: u64,
     adder: u64, // `initial_liquidity_adder` as stored by the pair (0 = none)
+    lp_valid: bool, // the pair's own `lp_token_identifier` is a valid ESDT id
 }
 
 /// a class of LOCKED tokens minted by one of the simple-lock contracts
@@ -179,6 +189,11 @@ struct Snap {
     wl: Vec<u64>,                          // getCommonTokensForUserPairs, iteration order
     cfg: Vec<(u64, u64, BigUint, u64)>,   // (common token, locked token, min value, min period)
     rlk: Vec<BigUint>,                     // router balances of every locked class
+    blk: u64,                              // block nonce as the router sees it
+    tper: u64,                             // getTemporaryOwnerPeriod
+    tmp: Vec<(u64, u64, u64)>,             // pair_temporary_owner in iteration order: (pair, creator, creation block)
+    nolp: Vec<u64>,                        // pairs whose own lp_token_identifier is not a valid ESDT id
+    bare: bool,                            // environment flag `bareNext`
 }
 
 #[derive(Clone, Debug)]
@@ -210,6 +225,20 @@ struct RouterWorld {
     epoch: u64,
     /// pairs (with liquidity) the owner paused through the router and has not resumed since
     owner_paused: HashSet<u64>,
+    /// environment flag: do not install the LP token of the pairs created from now on
+    bare_next: bool,
+    block: u64,
+}
+
+/// is there (still) a temporary-owner entry for pair `a`?
+fn post_has_tmp(w: &mut RouterWorld, a: u64) -> bool {
+    let pa = w.addr_of(a);
+    let mut has = false;
+    w.b.execute_query(&w.router, |sc| {
+        has = sc.pair_temporary_owner().contains_key(&managed_address!(&pa));
+    })
+    .assert_ok();
+    has
 }
 
 fn f_amount_out(total: u64, a: &BigUint, rin: &BigUint, rout: &BigUint) -> BigUint {
@@ -298,8 +327,10 @@ impl RouterWorld {
             (BigUint::zero(), BigUint::zero(), BigUint::zero(), 0u8, 0u64, 0u64, false);
         let (mut f, mut g): (Vec<u8>, Vec<u8>) = (vec![], vec![]);
         let mut adder: Option<Address> = None;
+        let mut lp_valid = false;
         self.b
             .execute_query(&self.pairs[ix].w, |sc| {
+                lp_valid = sc.lp_token_identifier().get().is_valid_esdt_identifier();
                 adder = sc.initial_liquidity_adder().get().map(|a| a.to_address());
                 let (a, b, c) = sc.get_reserves_and_total_supply().into_tuple();
                 r1 = to_big(&a);
@@ -327,6 +358,7 @@ impl RouterWorld {
         s.rep1 = tok_id(&f);
         s.rep2 = tok_id(&g);
         s.adder = adder.map(|a| self.id_of(&a)).unwrap_or(0);
+        s.lp_valid = lp_valid;
         let p = &self.pairs[ix];
         let pa = p.w.address_ref().clone();
         s.bal1 = self.bal(&pa, &tok_bytes(p.t1));
@@ -343,8 +375,15 @@ impl RouterWorld {
         let mut wl: Vec<Vec<u8>> = vec![];
         let mut cfg: Vec<(u64, Vec<u8>, BigUint, u64)> = vec![];
         let cfg_toks = self.cfg_toks();
+        let (mut blk, mut tper) = (0u64, 0u64);
+        let mut tmp: Vec<(Address, Address, u64)> = vec![];
         self.b
             .execute_query(&self.router, |sc| {
+                blk = sc.blockchain().get_block_nonce();
+                tper = sc.temporary_owner_period().get();
+                for (k, v) in sc.pair_temporary_owner().iter() {
+                    tmp.push((k.to_address(), v.0.to_address(), v.1));
+                }
                 for t in sc.common_tokens_for_user_pairs().iter() {
                     wl.push(t.to_boxed_bytes().as_slice().to_vec());
                 }
@@ -373,6 +412,10 @@ impl RouterWorld {
         s.cre = cre;
         s.tpl = tpl;
         s.epoch = self.epoch;
+        s.blk = blk;
+        s.tper = tper;
+        s.tmp = tmp.iter().map(|e| (self.id_of(&e.0), self.id_of(&e.1), e.2)).collect();
+        s.bare = self.bare_next;
         s.wl = wl.iter().map(|t| tok_id(t)).collect();
         s.cfg = cfg.into_iter().map(|(t, l, m, p)| (t, tok_id(&l), m, p)).collect();
         s.reg_addrs = addrs.iter().map(|a| self.id_of(a)).collect();
@@ -403,6 +446,9 @@ impl RouterWorld {
             let pa = self.pairs[ix].w.address_ref().clone();
             for t in 1..=self.ntok {
                 tot[t - 1] += self.bal(&pa, &tok_bytes(t));
+            }
+            if !ps.lp_valid {
+                s.nolp.push(self.pairs[ix].id);
             }
             s.pairs.push(ps);
         }
@@ -464,8 +510,10 @@ impl RouterWorld {
         let cfg = Self::or_dash(s.cfg.iter().map(|c| format!("{}:{}:{}:{}", c.0, c.1, c.2, c.3)).collect::<Vec<_>>().join(","));
         let lks = Self::or_dash(self.lkeys.iter().map(|k| format!("{}/{}/{}", k.coll, k.orig, k.unlock)).collect::<Vec<_>>().join(","));
         format!(
-            "act={} cre={} tpl={} ep={} reg={} rb={} rlk={} burn={} wl={} cfg={} lks={} pairs={} users={}",
-            s.active as u8, s.cre as u8, s.tpl as u8, s.epoch, reg, Self::join(&s.rb), Self::or_dash(Self::join(&s.rlk)),
+            "act={} cre={} tpl={} ep={} blk={} tper={} tmp={} nolp={} bare={} reg={} rb={} rlk={} burn={} wl={} cfg={} lks={} pairs={} users={}",
+            s.active as u8, s.cre as u8, s.tpl as u8, s.epoch, s.blk, s.tper,
+            Self::or_dash(s.tmp.iter().map(|e| format!("{}:{}:{}", e.0, e.1, e.2)).collect::<Vec<_>>().join(",")),
+            Self::or_dash(s.nolp.iter().map(|x| x.to_string()).collect::<Vec<_>>().join(",")), s.bare as u8, reg, Self::join(&s.rb), Self::or_dash(Self::join(&s.rlk)),
             Self::join(&s.burn), wl, cfg, lks, Self::or_dash(ps.join(";")), us.join(";")
         )
     }
@@ -665,17 +713,19 @@ impl RouterWorld {
         pays
     }
 
-    fn setup_new_pair(&mut self, w: PairW, id: u64, t1: usize, t2: usize, adder: u64) {
+    fn setup_new_pair(&mut self, w: PairW, id: u64, t1: usize, t2: usize, adder: u64, bare: bool) {
         let lp = lp_bytes(id);
         let zero = rust_biguint!(0);
         let owner = self.owner.clone();
         let lpc = lp.clone();
-        self.b
-            .execute_tx(&owner, &w, &zero, |sc| {
-                sc.lp_token_identifier().set(&managed_token_id!(lpc));
-            })
-            .assert_ok();
-        self.b.set_esdt_local_roles(w.address_ref(), &lp, &[EsdtLocalRole::Mint, EsdtLocalRole::Burn]);
+        if !bare {
+            self.b
+                .execute_tx(&owner, &w, &zero, |sc| {
+                    sc.lp_token_identifier().set(&managed_token_id!(lpc));
+                })
+                .assert_ok();
+            self.b.set_esdt_local_roles(w.address_ref(), &lp, &[EsdtLocalRole::Mint, EsdtLocalRole::Burn]);
+        }
         self.b.set_esdt_local_roles(w.address_ref(), &tok_bytes(t1), &[EsdtLocalRole::Burn]);
         self.b.set_esdt_local_roles(w.address_ref(), &tok_bytes(t2), &[EsdtLocalRole::Burn]);
         self.ids.insert(w.address_ref().clone(), id);
@@ -755,6 +805,7 @@ impl World for RouterWorld {
             locks.push(lw);
         }
         b.set_block_epoch(0);
+        b.set_block_nonce(0);
         let mut only_owner = HashMap::new();
         for e in router::AbiProvider::abi().endpoints.iter() {
             only_owner.insert(e.name.to_string(), e.only_owner);
@@ -772,7 +823,7 @@ impl World for RouterWorld {
         let mut w = RouterWorld {
             b, owner, users, stranger, router, template, pairs: vec![], ids, ntok, funds, accts,
             init_tot: vec![], next_dest: 0, only_owner, pending: vec![],
-            locks, lkeys: vec![], epoch: 0, owner_paused: HashSet::new(),
+            locks, lkeys: vec![], epoch: 0, owner_paused: HashSet::new(), bare_next: false, block: 0,
         };
         // foreign pairs: real pair contracts deployed outside the router, naming the router as theirs
         let fspec = kv(header, "foreign").unwrap_or("-").to_string();
@@ -798,7 +849,7 @@ impl World for RouterWorld {
                     sc.state().set(State::Active);
                 })
                 .assert_ok();
-                w.setup_new_pair(pw, id, t1, t2, 0);
+                w.setup_new_pair(pw, id, t1, t2, 0, false);
             }
         }
         let _ = w.snap(); // records the initial token totals for the burn ledger
@@ -821,6 +872,19 @@ impl World for RouterWorld {
         // ---------- bootstrap priorities ----------
         if !s.tpl && rng.chance(7, 10) {
             return ('O', format!("setTemplate {}", owner_or(rng, 90)));
+        }
+        if !s.active && rng.chance(3, 10) {
+            // the router is paused: the state-gated endpoints must refuse, the two temporary-owner ones must not
+            let c = owner_or(rng, 70);
+            return match rng.below(5) {
+                0 => ('O', format!("setTmpPeriod {c} {}", *rng.pick(&[0u64, 2, 5, 50]))),
+                1 => ('O', format!("clearTmp {c}")),
+                2 if !s.reg.is_empty() => {
+                    let e = rng.pick(&s.reg);
+                    ('O', format!("upgradePair {} {} {}", owner_or(rng, 90), e.0, e.1))
+                }
+                _ => ('O', self.gen_issue(rng, &s, None)),
+            };
         }
         if !s.active && rng.chance(7, 10) {
             return ('O', format!("resume {} {}", owner_or(rng, 90), ROUTER));
@@ -878,6 +942,11 @@ impl World for RouterWorld {
             7,     // 11 setSwapEnabledByUser by holders of locked tokens, pairs in any state
             3,     // 12 epoch advance
             3,     // 13 owner pauses a pair whose adder holds locked LP tokens, the adder tries to re-enable
+            4,     // 14 setTemporaryOwnerPeriod / clearPairTemporaryOwnerStorage
+            9,     // 15 issueLpToken / setLocalRoles
+            3,     // 16 upgradePair
+            6,     // 17 block nonce advance
+            4,     // 18 a pair created WITHOUT installing its LP token
         ];
         match rng.weighted(&weights) {
             0 => {
@@ -1013,6 +1082,39 @@ impl World for RouterWorld {
                 }
                 ('O', format!("pause {} {}", OWNER, id))
             }
+            14 => {
+                let c = owner_or(rng, 80);
+                if rng.chance(3, 4) {
+                    ('O', format!("setTmpPeriod {c} {}", *rng.pick(&[0u64, 1, 2, 3, 5, 8, 20, 50])))
+                } else {
+                    ('O', format!("clearTmp {c}"))
+                }
+            }
+            15 => ('O', self.gen_issue(rng, &s, None)),
+            16 => {
+                let c = owner_or(rng, 85);
+                let (a, b) = if !s.reg.is_empty() && rng.chance(8, 10) {
+                    let e = rng.pick(&s.reg);
+                    if rng.chance(1, 2) { (e.0, e.1) } else { (e.1, e.0) }
+                } else {
+                    match rng.below(3) {
+                        0 => (rng.range(0, k), rng.range(0, k + 1)),
+                        1 => { let a = rng.range(1, k); (a, a) }
+                        _ => fresh_pair(rng, &s),
+                    }
+                };
+                ('O', format!("upgradePair {c} {a} {b}"))
+            }
+            17 => ('O', format!("advanceBlock {}", s.blk + *rng.pick(&[0u64, 1, 1, 2, 3, 5, 10, 60]))),
+            18 => {
+                let c = if s.cre { owner_or(rng, 40) } else { owner_or(rng, 85) };
+                let (a, b) = fresh_pair(rng, &s);
+                let adder = if rng.chance(1, 4) { rng.range(1, nu) } else { 0 };
+                let fees = if c == OWNER { "300 50" } else { "- -" };
+                self.pending.push("bareNext 0".to_string());
+                self.pending.push(format!("createPair {c} {a} {b} {adder} {fees}"));
+                ('O', "bareNext 1".to_string())
+            }
             7 => match rng.below(4) {
                 3 => ('Q', format!("enableCfg {}", if !s.wl.is_empty() && rng.chance(2, 3) { *rng.pick(&s.wl) } else { rng.range(0, k + 1) })),
                 0 => ('Q', format!("getPair {} {}", rng.range(0, k + 1), rng.range(0, k + 1))),
@@ -1089,7 +1191,8 @@ impl World for RouterWorld {
                     if got != *neww.address_ref() {
                         tr.fail("C14", "create_returns_deployed_address", &site, "returned address is not the deployed one");
                     }
-                    self.setup_new_pair(neww, id, t1, t2, adder);
+                    let bare = self.bare_next;
+                    self.setup_new_pair(neww, id, t1, t2, adder, bare);
                     out_addr = id;
                     // C14 create_auth + duplicates, evaluated on what was observed before
                     if c != OWNER && !pre.cre {
@@ -1514,6 +1617,191 @@ impl World for RouterWorld {
                     self.b.set_block_epoch(e);
                     true
                 }
+            }
+            "advanceBlock" => {
+                let n2 = pu(w[1]);
+                if n2 < self.block {
+                    false
+                } else {
+                    self.block = n2;
+                    self.b.set_block_nonce(n2);
+                    true
+                }
+            }
+            "bareNext" => {
+                self.bare_next = w[1] == "1";
+                true
+            }
+            "setTmpPeriod" => {
+                let (c, period) = (pu(w[1]), pu(w[2]));
+                let ca = self.addr_of(c);
+                let oo = self.oo("setTemporaryOwnerPeriod");
+                let ok = self.b.execute_tx(&ca, &self.router, &zero, |sc| {
+                    if oo {
+                        sc.blockchain().check_caller_is_owner();
+                    }
+                    sc.set_temporary_owner_period(period);
+                }).result_status == 0;
+                if ok && c != OWNER {
+                    tr.fail("C14", "owner_only", &site, &format!("caller {c} changed the temporary owner period"));
+                }
+                if ok && !pre.active {
+                    tr.count("branch.tmp_admin_while_router_paused");
+                }
+                ok
+            }
+            "clearTmp" => {
+                let c = pu(w[1]);
+                let ca = self.addr_of(c);
+                let oo = self.oo("clearPairTemporaryOwnerStorage");
+                let mut size = 0usize;
+                let ok = self.b.execute_tx(&ca, &self.router, &zero, |sc| {
+                    if oo {
+                        sc.blockchain().check_caller_is_owner();
+                    }
+                    size = sc.clear_pair_temporary_owner_storage();
+                }).result_status == 0;
+                if ok {
+                    out_v.0 = BigUint::from(size as u64);
+                    if c != OWNER {
+                        tr.fail("C14", "owner_only", &site, &format!("caller {c} cleared the temporary owners"));
+                    }
+                    if size != pre.tmp.len() {
+                        tr.fail("C14", "clear_tmp_size", &site, &format!("returned {size}, the map had {} entries", pre.tmp.len()));
+                    }
+                    if !pre.active {
+                        tr.count("branch.tmp_admin_while_router_paused");
+                    }
+                    if size > 0 {
+                        tr.count("branch.clear_tmp_nonempty");
+                    }
+                }
+                ok
+            }
+            "issueLp" => {
+                let (c, a) = (pu(w[1]), pu(w[2]));
+                let ca = self.addr_of(c);
+                let pa = self.addr_of(a);
+                let ok = self.b.execute_tx(&ca, &self.router, &zero, |sc| {
+                    sc.issue_lp_token(managed_address!(&pa), managed_buffer!(b"LpToken"), managed_buffer!(b"LPT"));
+                }).result_status == 0;
+                // the documented conditions, evaluated on what was observed before the call
+                let registered = pre.reg_addrs.contains(&a);
+                let entry = pre.tmp.iter().find(|e| e.0 == a).cloned();
+                let live = entry.map(|e| (e.1, e.2.saturating_add(pre.tper) > pre.blk));
+                let nolp = pre.nolp.contains(&a);
+                if ok {
+                    if !pre.active {
+                        tr.fail("C14", "paused_router_blocks", &site, "issueLpToken succeeded on a paused router");
+                    }
+                    if c != OWNER && !pre.cre {
+                        tr.fail("C14", "issue_auth", &site, &format!("non-owner {c} issued an LP token while pair creation is disabled"));
+                    }
+                    if !registered {
+                        tr.fail("C14", "only_registered", &site, &format!("issueLpToken for the unregistered address {a} succeeded"));
+                    }
+                    if let Some((t, true)) = live {
+                        if t != c {
+                            tr.fail("C14", "issue_tmp_owner", &site, &format!("{c} issued the LP token of {a} during the period of its creator {t}"));
+                        }
+                        tr.count("branch.issue_ok.by_creator_in_period");
+                    }
+                    if !nolp {
+                        tr.fail("C14", "issue_once", &site, &format!("issueLpToken for {a} succeeded although its LP token exists"));
+                    }
+                    match live {
+                        Some((_, false)) => {
+                            tr.count("branch.issue_ok.expired_entry_removed");
+                            if post_has_tmp(self, a) {
+                                tr.fail("C14", "issue_tmp_expiry", &site, "the expired temporary owner entry is still there");
+                            }
+                            if c != OWNER {
+                                tr.count("branch.issue_ok.by_non_owner_after_expiry");
+                            }
+                        }
+                        None => tr.count("branch.issue_ok.no_entry"),
+                        _ => {}
+                    }
+                    if c == OWNER {
+                        tr.count("branch.issue_ok.by_owner");
+                    }
+                } else if !pre.active {
+                    tr.count("branch.issue_rej.router_paused");
+                } else if c != OWNER && !pre.cre {
+                    tr.count("branch.issue_rej.creation_disabled");
+                } else if !registered {
+                    tr.count("branch.issue_rej.unregistered");
+                } else if matches!(live, Some((t, true)) if t != c) {
+                    tr.count(if c == OWNER { "branch.issue_rej.owner_during_creators_period" } else { "branch.issue_rej.tmp_owner_differs" });
+                } else if !nolp {
+                    tr.count("branch.issue_rej.already_issued");
+                } else {
+                    tr.fail("C14", "issue_unexplained_refusal", &site, &format!("issueLpToken {c} {a} refused although every documented condition holds"));
+                }
+                ok
+            }
+            "setLocalRoles" => {
+                let (c, a) = (pu(w[1]), pu(w[2]));
+                let ca = self.addr_of(c);
+                let pa = self.addr_of(a);
+                let ok = self.b.execute_tx(&ca, &self.router, &zero, |sc| {
+                    sc.set_local_roles(managed_address!(&pa));
+                }).result_status == 0;
+                let registered = pre.reg_addrs.contains(&a);
+                let nolp = pre.nolp.contains(&a);
+                if ok {
+                    if !pre.active {
+                        tr.fail("C14", "paused_router_blocks", &site, "setLocalRoles succeeded on a paused router");
+                    }
+                    if !registered {
+                        tr.fail("C14", "only_registered", &site, &format!("setLocalRoles for the unregistered address {a} succeeded"));
+                    }
+                    if nolp {
+                        tr.fail("C14", "roles_need_token", &site, &format!("setLocalRoles for {a} succeeded without an LP token"));
+                    }
+                    if c != OWNER {
+                        tr.count("branch.roles_ok.by_non_owner");
+                    }
+                } else if !pre.active {
+                    tr.count("branch.roles_rej.router_paused");
+                } else if !registered {
+                    tr.count("branch.roles_rej.unregistered");
+                } else if nolp {
+                    tr.count("branch.roles_rej.not_issued");
+                } else {
+                    tr.fail("C14", "roles_unexplained_refusal", &site, &format!("setLocalRoles {c} {a} refused although every documented condition holds"));
+                }
+                ok
+            }
+            "upgradePair" => {
+                let (c, t1, t2) = (pu(w[1]), pu(w[2]) as usize, pu(w[3]) as usize);
+                let ca = self.addr_of(c);
+                let oo = self.oo("upgradePair");
+                let ok = self.b.execute_tx(&ca, &self.router, &zero, |sc| {
+                    if oo {
+                        sc.blockchain().check_caller_is_owner();
+                    }
+                    sc.upgrade_pair_endpoint(managed_token_id!(tok_bytes(t1)), managed_token_id!(tok_bytes(t2)));
+                }).result_status == 0;
+                let known = pre.reg.iter().any(|e| (e.0 as usize == t1 && e.1 as usize == t2) || (e.0 as usize == t2 && e.1 as usize == t1));
+                if ok {
+                    if c != OWNER {
+                        tr.fail("C14", "owner_only", &site, &format!("caller {c} upgraded a pair"));
+                    }
+                    if !pre.active {
+                        tr.fail("C14", "paused_router_blocks", &site, "upgradePair succeeded on a paused router");
+                    }
+                    if !known || t1 == t2 {
+                        tr.fail("C14", "only_registered", &site, &format!("upgradePair({t1},{t2}) succeeded without a registry entry"));
+                    }
+                } else if c != OWNER {
+                    tr.count("branch.upgrade_rej.not_owner");
+                } else if !pre.active {
+                    tr.count("branch.upgrade_rej.router_paused");
+                } else if !known {
+                    tr.count("branch.upgrade_rej.no_such_pair");
+                }
+                ok
             }
             "lock" => {
                 let (u, coll, orig, amount, unlock) = (pu(w[1]), pu(w[2]), pu(w[3]), big(w[4]), pu(w[5]));
@@ -2163,7 +2451,56 @@ impl RouterWorld {
             }
         }
     }
+    /// `issueLpToken` / `setLocalRoles`: mostly on a registered pair without LP token by somebody entitled,
+    /// with every guard approached from both sides
+    fn gen_issue(&mut self, rng: &mut Rng, s: &Snap, want: Option<usize>) -> String {
+        let nu = self.users.len() as u64;
+        let registered: Vec<u64> = s.reg_addrs.clone();
+        let bare_reg: Vec<u64> = s.nolp.iter().copied().filter(|a| registered.contains(a)).collect();
+        let issued_reg: Vec<u64> = registered.iter().copied().filter(|a| !s.nolp.contains(a)).collect();
+        let others: Vec<u64> = self.pairs.iter().map(|p| p.id).filter(|a| !registered.contains(a)).collect();
+        let a = match want {
+            Some(ix) => self.pairs[ix].id,
+            None => match rng.below(20) {
+                0..=10 if !bare_reg.is_empty() => *rng.pick(&bare_reg),
+                11..=14 if !issued_reg.is_empty() => *rng.pick(&issued_reg),
+                15 | 16 if !others.is_empty() => *rng.pick(&others),
+                17 => ROUTER,
+                18 => rng.range(1, nu),
+                _ => if !registered.is_empty() { *rng.pick(&registered) } else { PAIR_BASE },
+            },
+        };
+        let entry = s.tmp.iter().find(|e| e.0 == a).cloned();
+        let c = match (entry, rng.below(10)) {
+            (Some(e), 0..=4) => e.1,
+            (_, 5 | 6) => OWNER,
+            (_, 7) => STRANGER,
+            _ => rng.range(1, nu),
+        };
+        let op = if s.nolp.contains(&a) && rng.chance(5, 6) || rng.chance(1, 3) {
+            format!("issueLp {c} {a}")
+        } else {
+            format!("setLocalRoles {c} {a}")
+        };
+        if let Some(e) = entry {
+            if rng.chance(3, 10) {
+                // move the block nonce to the expiry boundary of the entry first (expired iff created + period <= now)
+                let exp = e.2.saturating_add(s.tper);
+                let target = if rng.chance(2, 3) { exp } else { exp.saturating_sub(1) };
+                if target >= s.blk {
+                    self.pending.push(op);
+                    return format!("advanceBlock {target}");
+                }
+            }
+        }
+        op
+    }
+
     fn gen_liquidity(&mut self, rng: &mut Rng, s: &Snap, ix: usize, u: u64) -> String {
+        if !s.pairs[ix].lp_valid {
+            // a pair without LP token cannot take liquidity (the model does not know): drive the issue flow instead
+            return self.gen_issue(rng, s, Some(ix));
+        }
         let p = &self.pairs[ix];
         let q = &s.pairs[ix];
         let one = BigUint::one();
